@@ -132,6 +132,10 @@ func (g *stGen) packet(typ byte, topic string, pid uint16) packets.Packet {
 	if r.Intn(8) == 0 {
 		pk.Expiry = -1
 	}
+	if r.Intn(2) == 0 { // the publisher used a topic alias
+		pk.Properties.TopicAlias = uint16(1 + r.Intn(65535))
+		pk.Properties.TopicAliasFlag = true
+	}
 	if r.Intn(3) == 0 {
 		pk.Properties.PayloadFormat = byte(r.Intn(2))
 		pk.Properties.PayloadFormatFlag = r.Intn(2) == 0
@@ -142,7 +146,6 @@ func (g *stGen) packet(typ byte, topic string, pid uint16) packets.Packet {
 		if r.Intn(2) == 0 {
 			pk.Properties.SubscriptionIdentifier = []int{1 + r.Intn(268435455), 7}
 		}
-		pk.Properties.TopicAlias = uint16(r.Intn(3))
 	}
 	return pk
 }
@@ -263,6 +266,13 @@ func storageAlphabet() []stEvent {
 	c3 := g.client("a")
 	c3.Stop(packets.ErrSessionTakenOver)
 	p1 := g.packet(packets.Publish, "t", 2)
+	p1.Properties.TopicAlias, p1.Properties.TopicAliasFlag = 7, true
+	p1.Properties.PayloadFormat, p1.Properties.PayloadFormatFlag = 1, true
+	p1.Properties.MessageExpiryInterval = 30
+	p1.Properties.ContentType, p1.Properties.ResponseTopic = "ct", "r/t"
+	p1.Properties.CorrelationData = []byte{1, 0, 255}
+	p1.Properties.SubscriptionIdentifier = []int{3, 268435455}
+	p1.Properties.User = []packets.UserProperty{{Key: "k", Val: "v"}}
 	p2 := g.packet(packets.Pubrec, "t", 2)
 	return []stEvent{
 		evSessionEstablished(c1, false),
